@@ -1944,6 +1944,7 @@ func (pid *PID) runTurn(w *worker) {
 	for range budget {
 		if sysMsg := pid.systemMailbox.Dequeue(); sysMsg != nil {
 			pid.dispatchOne(sysMsg, now)
+			now = time.Now()
 			continue
 		}
 		received := pid.mailbox.Dequeue()
@@ -1954,6 +1955,10 @@ func (pid *PID) runTurn(w *worker) {
 			continue
 		}
 		pid.dispatchOne(received, now)
+		// a handler may take arbitrarily long: the next message of the turn must
+		// not be stamped with the instant the turn began, or the activity it
+		// records is stale and passivation fires too early after it
+		now = time.Now()
 	}
 	pid.schedState.YieldToScheduled()
 	w.reschedule(pid)
